@@ -120,7 +120,11 @@ func Start(id, level string) *Run {
 func (r *Run) Rule(s string) { r.mu.Lock(); r.rule = s; r.mu.Unlock() }
 
 // Assume records an assumption / trusted-base statement.
-func (r *Run) Assume(s ...string) { r.mu.Lock(); r.assumptions = append(r.assumptions, s...); r.mu.Unlock() }
+func (r *Run) Assume(s ...string) {
+	r.mu.Lock()
+	r.assumptions = append(r.assumptions, s...)
+	r.mu.Unlock()
+}
 
 // Eval counts n executed cases.
 func (r *Run) Eval(n int) { r.mu.Lock(); r.evaluations += int64(n); r.mu.Unlock() }
@@ -146,7 +150,11 @@ func (r *Run) Sample(x any) {
 }
 
 // WantSample reports whether more samples are wanted (lets callers skip building them).
-func (r *Run) WantSample() bool { r.mu.Lock(); defer r.mu.Unlock(); return len(r.samples) < r.maxSamples }
+func (r *Run) WantSample() bool {
+	r.mu.Lock()
+	defer r.mu.Unlock()
+	return len(r.samples) < r.maxSamples
+}
 
 // Count adds n to a named counter reported in the evidence.
 func (r *Run) Count(name string, n int64) { r.mu.Lock(); r.counters[name] += n; r.mu.Unlock() }
